@@ -262,12 +262,14 @@ func (fr *Frame) applyContract(in ssa.Instruction, callee *ssa.Function, sp *Fun
 					if _, clash := cenv.vars[k]; !clash {
 						cenv.vars[k] = v
 					}
+					cenv.vars["caller."+k] = v
 				}
 			}
 			for k, v := range e.params {
 				if _, clash := cenv.vars[k]; !clash {
 					cenv.vars[k] = v
 				}
+				cenv.vars["caller."+k] = v
 			}
 			for i, c := range cls {
 				t, err := cenv.evalBool(c.E)
